@@ -58,6 +58,19 @@ CHECKS = {
         technique="Coq proof (string-prefix lemmas, case analysis over phases) + differential "
                   "correspondence evaluated by vm_compute",
         design_ref="DESIGN.md section 6/C14"),
+    'C02': dict(
+        text="Theorems (Props/C02.v) for every assignment history, initial output and fan-out: the "
+             "(previous,value) pairs seen by each on_output event are exactly the successive changes "
+             "(the independent spec `changes`), chained (first previous = initial output, next "
+             "previous IS the preceding value, previous never == value), last change = final output; "
+             "each on_every_output event gets exactly one pair per assignment; inside one assignment "
+             "all on_output events in configuration order, then all on_every_output events; the "
+             "destination receives exactly the pipeline result of C16. Tie: real Input / direct "
+             "set_output / FuncBlock-in-simulator senders, deliveries grouped by Begin/End brackets "
+             "from a wrapper, deliveries outside brackets, object identity of the chain.",
+        technique="Coq proof (induction over assignment histories) + differential correspondence "
+                  "evaluated by vm_compute",
+        design_ref="DESIGN.md section 6/C02"),
 }
 
 NOT_YET = "check not built yet in this round (planned: Coq model + theorems + correspondence, see DESIGN.md section 6)"
